@@ -148,6 +148,17 @@ NEEDS = {
 }
 
 
+# seeded changes that a later fix: commit has made harmless: the change still applies, but the repaired library no longer
+# relies on the code path it breaks, so neither the agent's demonstration nor the check can (or should) fail any more.
+RETIRED = {
+ "C06h": "neutralised by fix a7cbac8 (connect stores one-shot iterables in a list first): the filter iterator the seed "
+         "wraps the connection value in is no longer used up by the existence check. Last confirmed and caught at /repo fb78a17.",
+ "C09d": "neutralised by fix 044f74c (sequential_unroll removes only the io that were created for the pins): Circuit.remove "
+         "is no longer asked for names that do not exist, so its early abort on a missing name has no effect there. Last "
+         "confirmed and caught at /repo fb78a17.",
+}
+
+
 def passing(cwd, env=None):
     e = dict(os.environ, PYTHONDONTWRITEBYTECODE="1")
     e.update(env or {})
@@ -230,6 +241,8 @@ def main():
                                  "violations": [v[:300] for v in vl[:4]]}
             meta["what_i_ran"] = ["rsync /repo -> scratch; git apply patch.diff", " ".join(PYTEST) + " (with and without the change; passing test ids compared)",
                                   "CG_REPO=/repo demo.py ; CG_REPO=<scratch> demo.py", f"./check run {prop} --tier {a.tier} against the scratch copy"]
+            if sid in RETIRED:
+                meta["retired"] = RETIRED[sid]
             with open(os.path.join(d, "meta.json"), "w") as f:
                 json.dump(meta, f, indent=1)
             rows.append((sid, applies, meta.get("tests", {}).get("identical_passing_set"), meta.get("demo", {}).get("exit_on_repo"),
@@ -237,8 +250,13 @@ def main():
             print(rows[-1], flush=True)
         finally:
             shutil.rmtree(scratch, ignore_errors=True)
-    bad = [r for r in rows if not (r[1] and r[3] == 0 and r[4] not in (0, None) and r[5])]
-    print(f"{len(rows) - len(bad)}/{len(rows)} seeded changes confirmed and caught")
+    retired = [r for r in rows if r[0] in RETIRED]
+    # a retired change must be harmless now: it applies, the demonstration passes with it and the check stays silent
+    odd = [r for r in retired if not (r[1] and r[3] == 0 and r[4] == 0 and not r[5])]
+    rows = [r for r in rows if r[0] not in RETIRED]
+    bad = [r for r in rows if not (r[1] and r[3] == 0 and r[4] not in (0, None) and r[5])] + odd
+    print(f"{len(rows) - len(bad) + len(odd)}/{len(rows)} seeded changes confirmed and caught; {len(retired)} retired "
+          f"(made harmless by a later fix), {len(odd)} of them not as expected")
     return 0 if not bad else 1
 
 
